@@ -76,8 +76,21 @@ def choose_plan(rng, code, cls, distinct=True):
     p = {"code": code, "insize": insize, "chunk": chunk, "dirs": dirs, "rgb": rgb, "pixel": pixel,
          "ext": ext, "out_dtype": out_dtype, "flat": rng.random() < 0.4, "gzip": rng.random() < 0.6,
          "cls": cls, "mode": "inprocess"}
+    if out_dtype in ("uint32", "uint64") and rng.random() < 0.5:
+        # compressed_segmentation destination: the encoder then sees the re-oriented views
+        p["encoding"] = "compressed_segmentation"
+        b = rng.choice([8, 4, 2, 2])
+        p["block"] = [b, b, b]
+    if rng.random() < 0.12:
+        # sharded destination (cubic chunks), real sub-process
+        c = rng.choice([2, 2, 3, 4])
+        chunk2 = [c, c, c]
+        chunk2[sl.AXIS[code[2]]] = c
+        p.update(chunk=[c, c, c], sharding=list(rng.choice([(0, 0, 0), (1, 0, 0), (1, 1, 0), (2, 1, 0), (1, 1, 1)]))
+                 + [rng.choice(["raw", "gzip"])], mode="subprocess", flat=False, gzip=True)
+        p["cls"] = depth_class(nsl, c)
     r = rng.random()
-    if r < 0.15:
+    if r < 0.15 and p["mode"] != "subprocess":
         # the function API without an options dictionary (default storage options)
         p.update(mode="api", flat=False, gzip=True)
     if pixel == "uint16" and not rgb and rng.random() < 0.6:
@@ -96,13 +109,14 @@ def sig_of(p, res, clause):
             "slice_axis_inverted": p["code"][2] in "LPI",
             "slices_vs_depth": p["cls"], "channels": p["dirs"] * (3 if p["rgb"] else 1),
             "rgb": p["rgb"], "pixel": p["pixel"], "ext": p["ext"], "out_dtype": p["out_dtype"],
-            "sharded": bool(p.get("sharding")), "exc": res.get("exc", ""), "where": res.get("where", ""),
+            "sharded": bool(p.get("sharding")), "encoding": p.get("encoding", "raw"),
+            "exc": res.get("exc", ""), "where": res.get("where", ""),
             "entry": p["mode"], "mixed_pixel_types": bool(p.get("mixpix")), "invalid_stack": bool(p.get("short"))}
 
 
 def plan_key(p):
     return json.dumps([p["code"], p["insize"], p["chunk"], p["dirs"], p["rgb"], p["pixel"], p["ext"],
-                       p["out_dtype"], p["flat"], p["gzip"], p.get("sharding"), p["mode"],
+                       p["out_dtype"], p["flat"], p["gzip"], p.get("sharding"), p.get("encoding"), p["mode"],
                        bool(p.get("mixpix")), bool(p.get("short"))])
 
 
